@@ -167,6 +167,8 @@ class EEMSWrite(SameArrayShapeMixin, Command):
                 # The fill value marks the missing cells in the file, so it must not be one of the values
                 values = data.compressed()
                 fill_value = values.dtype.type(command.result.fill_value)
+                if fill_value != fill_value and (values != values).any():
+                    fill_value = values.dtype.type(numpy.ma.default_fill_value(values))  # NaN is one of the values
                 while (values == fill_value).any():
                     if numpy.issubdtype(values.dtype, numpy.integer):
                         fill_value = fill_value + values.dtype.type(1)
